@@ -5,12 +5,13 @@ CONSTANTS
   RepairedGen = TRUE
   Sections <- S_AaB
   Names <- N_kKn
-  Values <- V_4
+  Values <- V_5
   ExtraLines <- X_all
   Styles = {"lf", "crlf", "mix"}
-  MaxTextLines = 3
+  MaxTextLines = 1
   MaxLines = 1000
   MaxDepth = 100000
+  SimTextLines = 3
   Alphabet = {}
 INVARIANTS EmitInv
 CHECK_DEADLOCK FALSE
